@@ -95,8 +95,22 @@ where
     T: Number,
     usize: Cast<T>,
 {
-    let len = b - a;
-    let steps = (len / step).ceil();
+    let zero = T::zero();
+    // no element lies strictly before `b` when `b` is not after `a` in the direction of `step`
+    let empty = if step > zero { b <= a } else { b >= a };
+    let steps = if empty {
+        zero
+    } else {
+        let len = b - a;
+        let q = (len / step).ceil();
+        // integer division truncates: the last, partial step still starts before `b`
+        let short = if step > zero {
+            q * step < len
+        } else {
+            q * step > len
+        };
+        if short { q + T::one() } else { q }
+    };
     Linspace {
         start: a,
         step,
